@@ -1293,3 +1293,57 @@ COMPONENTS = {
 
 def props_of(v: Dict[str, Any]) -> List[str]:
     return v.get("props", ["C06"])
+
+
+# --------------------------------------------------------------------------- stub conformance
+
+def real_pool_run(spec: Dict[str, Any]) -> Dict[str, Any]:
+    """The same CLI run with the real multiprocessing.Pool (no seams at all)."""
+    main_mod = C.import_pyrefact()
+    root = spec["root"]
+    materialise(root, spec["files"])
+    os.chdir(root)
+    ff_returns: List[Any] = []
+    real_ff = main_mod.format_files
+
+    def format_files(*a, **k):
+        r = real_ff(*a, **k)
+        ff_returns.append(r)
+        return r
+
+    main_mod.format_files = format_files
+    sys.stdin = io.StringIO("")
+    try:
+        rc = main_mod.main(list(spec["argv"]))
+        outcome = ["ok", rc]
+    except SystemExit as e:
+        outcome = ["exit", str(e.code)]
+    except BaseException as e:  # noqa: BLE001
+        outcome = ["raised", type(e).__name__]
+    return {"outcome": outcome, "ff_returns": ff_returns, "tree": read_tree(root)}
+
+
+def conformance(n_trees: int = 12) -> List[str]:
+    """SimPool against the thing it replaces: final tree, return value and outcome of
+    the real pool (n_cores 1 and 3) equal those of SimPool under the run-to-completion
+    schedule, on generated trees (base and edges profiles)."""
+    problems: List[str] = []
+    for i in range(n_trees):
+        seed = C.derive_seed(0, "conformance", i)
+        rng = random.Random(seed)
+        case = generate(rng, {"profile": "edges" if i % 2 else "base", "schedules": 1})
+        root = str(RUN_ROOT / f"conf{seed:016x}")
+        try:
+            for n in (1, 3):
+                argv = _argv(case, case["paths"], root, n)
+                real = C.fork_call(real_pool_run, ({"root": root, "files": case["files"], "argv": argv},), timeout=900.0)
+                simr = C.fork_call(cli_run, ({"root": root, "files": case["files"], "argv": argv, "sched": {"strategy": "first", "granule": 1 << 30}},), timeout=900.0)
+                for key in ("outcome", "ff_returns", "tree"):
+                    a, b = real[key], simr[key]
+                    if key == "outcome":
+                        a, b = a[:2], b[:2]
+                    if a != b:
+                        problems.append(f"tree {i} n_cores={n}: {key} differs between the real pool and SimPool")
+        finally:
+            shutil.rmtree(root, ignore_errors=True)
+    return problems
